@@ -8,6 +8,16 @@ PY = '/venv/bin/python'
 
 # property -> (category, level text, level note, technique, design ref)
 CLAIMED = {
+    'C07': ('other',
+            'Repository-specific static rules over every site (package-wide) that mutates the two derived indexes or the entity key store: key '
+            'normal form at each index mutation (string-form dataflow: casefolded; by_target maps empty to None), single-writer discipline for '
+            'Entity._keys, remove-old-first and membership-guarded adds in the two writers, list+index co-update in add_ent/add_ents/remove_ent, '
+            'worldspawn registration/re-class refusal, snapshot iteration of CopySet, and unregistration of the placeholder spawn when VMF.parse '
+            'replaces it. Each is a necessary condition: breaking it makes some history go stale. Sufficiency for all histories is not claimed.',
+            'Trusted: CPython ast, engine/forms.py (flow-insensitive string-form domain with order-aware parameter re-assignment). '
+            'Histories that add one entity to two maps or twice to one map are outside the decided clauses.',
+            'static: string-form dataflow on index keys + who-may-write rule + guarded-update shape rules',
+            'DESIGN.md section 3, C07'),
     'C04': ('proof',
             'Obligations about the exact-arithmetic content of the formulas as written, discharged by normal-form computation in a polynomial '
             'domain over Q[cos/sin symbols, matrix and vector entries] modulo sin^2+cos^2=1 (and |axis|=1): from_angle equals roll.pitch.yaw under '
